@@ -182,6 +182,12 @@ def rename_stream(seed, tier):
                     names.add(w1 + '_' + w2 + '_' + w3)
     while len(names) < sizes(tier, 400, 600):
         names.add('_'.join(''.join(r.choice('abcdefgxyz') for _ in range(r.randint(2, 5))) for _ in range(r.randint(1, 4))))
+    # siblings that differ only by where the word boundaries are (`user_id` / `userid`): their camel / pascal forms differ only
+    # in CASE, so anything that identifies names case-insensitively (a cache key, a lookup table) confuses them -- and only
+    # when both are renamed in the same interpreter
+    for nm in sorted(names):
+        if '_' in nm and r.random() < 0.5:
+            names.add(nm.replace('_', '', 1) if r.random() < 0.5 else nm.replace('_', ''))
     i = 0
     for nm in sorted(names):
         for st in ('snake', 'scream', 'kebab', 'camel', 'pascal'):
@@ -234,6 +240,19 @@ def proj_full(out):
 
 def rename_oracle(sc, iout, mout=None):
     """C20 observed directly: reversibility / idempotence / canonical spelling on the implementation"""
+    if sc['op'] == 'dictview':
+        # the class API: keys of `obj.dict(rename=style)` are the canonical spellings of the (set) field names
+        st = sc.get('rename')
+        names = [f for f, _ in sc['obj']['obj'][1] if not sc.get('set_only') or f in sc['obj']['obj'][2]]
+        def canon_name(nm):
+            ws = nm.split('_')
+            return {'snake': '_'.join(ws), 'scream': '_'.join(w.upper() for w in ws), 'kebab': '-'.join(ws),
+                    'camel': ws[0] + ''.join(w.capitalize() for w in ws[1:]), 'pascal': ''.join(w.capitalize() for w in ws), None: nm}[st]
+        if st is not None and any(nm.endswith('_') or '__' in nm for nm in names):
+            return None if (isinstance(iout, dict) and iout.get('raises') == 'ValueError') else f'dict(rename={st!r}) with an unsplittable field name was not refused: {iout}'
+        want = sorted(canon_name(nm) for nm in names)
+        got = sorted(k for k, _ in iout['ok']['d']) if isinstance(iout, dict) and 'ok' in iout and 'd' in iout['ok'] else None
+        return None if got == want else f'dict(set_only={sc.get("set_only")}, rename={st!r}) has keys {got}, canonical spellings are {want}'
     if sc.get('stream') != 'snake' or sc['op'] != 'rename':
         nm = sc['name']
         bad = nm == '' or nm[0] in '_-' or nm[-1] in '_-' or any(a in '_-' and b in '_-' for a, b in zip(nm, nm[1:]))
@@ -430,7 +449,7 @@ PLUGS = {
                 project=proj_full, oracles=['c18'], disagreement_is_failure=True),
     'C19': dict(streams=lambda seed, tier: gen.scenarios_io(seed, sizes(tier, 2500, 30000)),
                 project=proj_full, oracles=[], disagreement_is_failure=True, post_oracle=lambda sc, iout, mout: io_oracle(sc, iout, mout), decided_by=['post']),
-    'C20': dict(streams=lambda seed, tier: rename_stream(seed, tier), project=proj_full, oracles=[], disagreement_is_failure=True, decided_by=['post'],
+    'C20': dict(streams=lambda seed, tier: rename_stream(seed, tier) + gen.scenarios_dictview_names(seed, sizes(tier, 300, 3000)), project=proj_full, oracles=[], disagreement_is_failure=True, decided_by=['post'],
                 post_oracle=rename_oracle),
 }
 
